@@ -51,8 +51,11 @@ func (t scopedTri) PointInSide(p vector3.Float64) bool {
 		return false
 	}
 
+	// All three normals have to agree. Comparing only u against v and w lets
+	// a point on the extension of edge BC through (u is the zero vector there,
+	// so both of its dot products are 0).
 	w := a.Cross(b)
-	return u.Dot(w) >= 0.
+	return u.Dot(w) >= 0. && v.Dot(w) >= 0.
 }
 
 func (t scopedTri) ClosestPoint(p vector3.Float64) vector3.Float64 {
@@ -275,8 +278,11 @@ func (t Tri) PointInSide(p vector3.Float64) bool {
 		return false
 	}
 
+	// All three normals have to agree. Comparing only u against v and w lets
+	// a point on the extension of edge BC through (u is the zero vector there,
+	// so both of its dot products are 0).
 	w := a.Cross(b)
-	return u.Dot(w) >= 0.
+	return u.Dot(w) >= 0. && v.Dot(w) >= 0.
 }
 
 func (t Tri) LineIntersects(line geometry.Line3D) (vector3.Float64, bool) {
